@@ -107,8 +107,11 @@ def main():
   gen = po2gen.emit(vlib.GEN)
   from translate import reportgen
   rgen = reportgen.emit(vlib.GEN)
-  info = vlib.build_obligations(PROP, gen_files=[gen, rgen], extra_files=[os.path.join(vlib.COQ, "theories", "Link", "Po2Link.v"),
-                                                                         os.path.join(vlib.COQ, "theories", "Link", "ReportLink.v")])
+  from translate import po2callgen
+  cgen = po2callgen.emit(vlib.GEN)
+  info = vlib.build_obligations(PROP, gen_files=[gen, rgen, cgen], extra_files=[os.path.join(vlib.COQ, "theories", "Link", "Po2Link.v"),
+                                                                               os.path.join(vlib.COQ, "theories", "Link", "ReportLink.v"),
+                                                                               os.path.join(vlib.COQ, "theories", "Link", "Po2CallLink.v")])
   errs = rep.obligations(info, "python3 tools/translate/po2gen.py coq/gen && coqc coq/gen/Po2Gen.v && coqc coq/theories/Link/Po2Link.v && coqc coq/theories/Properties/C03.v")
   for e in errs:
     rep.violation("obligation-" + os.path.basename(e["file"]), "proof obligation no longer checks: " + e["error"][-400:],
